@@ -514,3 +514,33 @@ example : ∃ s', GStar demo s' ∧ ∀ t ∈ s', t.todo = [] :=
   C09_all_return demo (tok_initial demo_initial)
 
 end Sod.Lock
+
+/-! ### from extracted step facts to the discipline of whole paths -/
+namespace Sod.Lock
+
+theorem disc_of_steps (held : Held) (p : List Act)
+    (hs : ∀ st ∈ stepsOf held p, stepOK st = true) (hf : finalOf held p = []) : Disc held p := by
+  induction p generalizing held with
+  | nil => simpa [Disc, finalOf] using hf
+  | cons a rest ih =>
+    have h0 := hs (held, a) (by simp [stepsOf])
+    have hrest : ∀ st ∈ stepsOf (after held a) rest, stepOK st = true :=
+      fun st hst => hs st (by simp [stepsOf, hst])
+    have hfin : finalOf (after held a) rest = [] := by simpa [finalOf] using hf
+    cases a with
+    | acq l m =>
+      refine ⟨?_, ih _ hrest hfin⟩
+      simpa [stepOK, List.all_eq_true] using h0
+    | rel l m =>
+      refine ⟨?_, ih _ hrest hfin⟩
+      simpa [stepOK] using h0
+
+/-- every path covered by the facts of an `ok` entry is disciplined -/
+theorem disc_of_covered (e : EntryFacts) (he : e.ok = true) (p : List Act) (hc : e.covers p) : Disc [] p := by
+  unfold EntryFacts.ok at he
+  rw [Bool.and_eq_true, List.all_eq_true, List.all_eq_true] at he
+  refine disc_of_steps [] p (fun st hst => he.1 st (hc.1 st hst)) ?_
+  have := he.2 _ hc.2
+  simpa using this
+
+end Sod.Lock
